@@ -187,7 +187,17 @@ def run_case(cs, seed):
         else:
             exp = expected_values(op, fn, a, b if op != "broadcast" else b, A, B, arg)
         g = np.asarray(got, dtype=float)
-        if g.shape != np.shape(exp) or not np.allclose(g, exp, rtol=1e-11, atol=1e-12, equal_nan=True):
+        if op == "inv" and g.shape == np.shape(exp):
+            # an inverse is known to eps x condition number only: the closed form of the library and numpy's LU are both within that
+            # bound of the exact inverse, not within 1e-11 of each other (random 3 x 3 matrices reach cond 1e5 - 1e6)
+            big = np.abs(exp).max(axis=(-1, -2))
+            bound = 1e-11 + 8 * np.finfo(float).eps * np.linalg.cond(A)
+            ok_inv = bool(np.all(np.abs(g - exp).max(axis=(-1, -2)) <= bound * big))
+        else:
+            ok_inv = None
+        if ok_inv is True:
+            pass
+        elif g.shape != np.shape(exp) or ok_inv is False or not np.allclose(g, exp, rtol=1e-11, atol=1e-12, equal_nan=True):
             out.append((f"values/{key}", f"{desc} does not equal the operation carried out at each (e, p) independently (max diff {np.abs(g - exp).max() if g.shape == np.shape(exp) else 'shape'})"))
     return out
 
